@@ -90,26 +90,27 @@ def TT(v):
 
 
 # ============================================================================ cases
-def rand_tree(rng, n, serial, grid=8):
-    """nested tuples (age,) / (age, l, r); tip ages; internal ages (ascending)"""
-    tips = [0.0] + [(rng.randrange(0, grid) / 4 if serial else 0.0) for _ in range(n - 1)]
+def rand_tree(rng, n, serial, grid=8, den=None):
+    """nested tuples (age,) / (age, l, r); tip ages; internal ages (ascending). `den`: ages are k/den (tenths, thirds, sevenths:
+    not representable in binary) instead of dyadic"""
+    tips = [0.0] + [((rng.randrange(0, 2 * den) / den if den else rng.randrange(0, grid) / 4) if serial else 0.0) for _ in range(n - 1)]
     nodes = [(h,) for h in tips]
     ints = []
     while len(nodes) > 1:
         i, j = rng.sample(range(len(nodes)), 2)
         a, b = nodes[i], nodes[j]
-        h = max(a[0], b[0]) + rng.randrange(1, grid) / 8
+        h = max(a[0], b[0]) + (rng.randrange(1, den + 3) / den if den else rng.randrange(1, grid) / 8)
         ints.append(h)
         nodes = [x for k, x in enumerate(nodes) if k not in (i, j)] + [(h, a, b)]
     return nodes[0], tips, sorted(ints)
 
 
-def gen_case(rng, max_m=8, n_max=7, allow=("r", "rhomid", "coincide", "modes")):
+def gen_case(rng, max_m=8, n_max=7, allow=("r", "rhomid", "coincide", "modes"), den=None):
     n = rng.randrange(2, n_max + 1)
-    tree, tips, ints = rand_tree(rng, n, serial=rng.random() < 0.7)
+    tree, tips, ints = rand_tree(rng, n, serial=rng.random() < 0.7, den=den)
     m = rng.choice([1, 1, 2, 2, 3, 4, 5, 8][: max(1, min(8, max_m + 2))])
     m = min(m, max_m)
-    T_ = ints[-1] + rng.choice([0.25, 0.5, 1.0, 1.75])
+    T_ = ints[-1] + (rng.randrange(1, 2 * den) / den if den else rng.choice([0.25, 0.5, 1.0, 1.75]))
     mode = rng.choice(["given", "given", "none", "relative"]) if "modes" in allow else "given"
     cands = sorted({T_ - h for h in tips + ints if 0 < T_ - h < T_})
     if mode == "none":
@@ -122,19 +123,36 @@ def gen_case(rng, max_m=8, n_max=7, allow=("r", "rhomid", "coincide", "modes")):
             if "coincide" in allow and cands and rng.random() < 0.5:
                 bs.add(rng.choice(cands))
             else:
-                b = rng.randrange(1, 16) / 16 * T_ if mode == "relative" else round(rng.uniform(0.05, 0.95) * T_ * 8) / 8
+                b = rng.randrange(1, 16) / 16 * T_ if mode == "relative" else (
+                    rng.randrange(1, 40) / den if den else round(rng.uniform(0.05, 0.95) * T_ * 8) / 8)
                 if 0 < b < T_:
                     bs.add(b)
             if mode == "relative":
                 # the fraction handed to the code must give the boundary back exactly (else a coincidence with an event
                 # would silently turn into a near miss)
                 bs = {b for b in bs if (b / T_) * T_ == b}
+        # on a non-dyadic grid a boundary drawn as k/den and one drawn as origin - height can be an ulp apart: an epoch of width
+        # 1e-16 is legal but says nothing (and the RK4 oracle cannot integrate over it); keep one of the two
+        kept = []
+        for b in sorted(bs):
+            if (not kept or b - kept[-1] > 1e-9) and T_ - b > 1e-9:
+                kept.append(b)
+        bs = kept
         m = len(bs) + 1
         times = [0.0] + sorted(bs) + [T_]
-    lam = [rng.randrange(4, 25) / 8 for _ in range(m)]
-    mu = [rng.randrange(2, 17) / 8 for _ in range(m)]
-    psi = [rng.randrange(1, 13) / 8 for _ in range(m)]
-    rho = [(rng.choice([0.0, 0.0, 0.25]) if "rhomid" in allow else 0.0) for _ in range(m - 1)] + [rng.choice([0.0, 0.5, 0.5, 1.0])]
+    if den:
+        lam = [rng.randrange(5, 31) / 10 for _ in range(m)]
+        mu = [rng.randrange(2, 21) / 10 for _ in range(m)]
+        psi = [rng.randrange(1, 16) / 10 for _ in range(m)]
+        # a boundary placed on a sampling time carries a rho event more often than not: rho-sampling in the past
+        ys_ = {T_ - h for h in tips}
+        rho = [(rng.choice([0.0, 0.3, 0.6]) if ("rhomid" in allow and times[i + 1] in ys_) else (rng.choice([0.0, 0.0, 0.3]) if "rhomid" in allow else 0.0))
+               for i in range(m - 1)] + [rng.choice([0.0, 0.5, 0.7, 1.0])]
+    else:
+        lam = [rng.randrange(4, 25) / 8 for _ in range(m)]
+        mu = [rng.randrange(2, 17) / 8 for _ in range(m)]
+        psi = [rng.randrange(1, 13) / 8 for _ in range(m)]
+        rho = [(rng.choice([0.0, 0.0, 0.25]) if "rhomid" in allow else 0.0) for _ in range(m - 1)] + [rng.choice([0.0, 0.5, 0.5, 1.0])]
     r = [rng.choice([0.0, 0.5, 1.0]) for _ in range(m)] if ("r" in allow and rng.random() < 0.3) else None
     return {"lam": lam, "mu": mu, "psi": psi, "rho": rho, "times": times, "r": r, "survival": rng.random() < 0.5,
             "tips": tips, "ints": ints, "tree": tree, "mode": mode, "root_edge": rng.random() < 0.25,
@@ -816,6 +834,78 @@ def ordering_pass(ck, drv, fail, n_trees):
                              f"heights {hl} -> {vv!r} (rate shift at {b}, {label})", dict(rp, impl=vv, other=first[0]))
 
 
+
+# ============================================================================ mathematically equal, bitwise different
+def decimal_coincidence_pass(ck, drv, fail, n):
+    """rho-sampling events IN THE PAST placed exactly on a tip's sampling time, with values that have no binary representation
+    (tenths, thirds, sevenths: origin 6.1, height 1.3), the shift time supplied the way a user computes it: t = origin - height
+    in floats. CONTRACT (documented in design.d/C09.md): the library recognises the coincidence by comparing forward times,
+    `times == origin - tip_heights` — the same expression — so it IS recognised; comparing heights, `origin - t == h`, is a
+    different statement in floats and loses it. Checked against the intended coincidence computed in exact rationals (N_i, rho-tip
+    mask), the Lean model and the RK4 integration of the master equations."""
+    from fractions import Fraction
+
+    torch = T()["torch"]
+    rng = ck.rng
+    done = guard = 0
+    while done < n and guard < 50 * n:
+        guard += 1
+        den = rng.choice([10, 3, 7])
+        c = gen_case(rng, max_m=1, n_max=5, allow=(), den=den)
+        past = sorted({h for h in c["tips"] if h > 0})
+        if not past:
+            continue
+        T_ = c["times"][-1]
+        # prefer a height for which the two spellings of the coincidence differ bitwise
+        past.sort(key=lambda h: T_ - (T_ - h) == h)
+        hs = past[: rng.choice([1, 2])]
+        # the shift times as a user computes them: origin - height, in float64 tensor arithmetic
+        bs = sorted(set((torch.tensor([T_], dtype=torch.float64) - torch.tensor(hs, dtype=torch.float64)).tolist()))
+        if any(not (0 < b < T_) for b in bs):
+            continue
+        done += 1
+        m = len(bs) + 1
+        c.update(times=[0.0] + bs + [T_], lam=[rng.randrange(5, 31) / 10 for _ in range(m)], mu=[rng.randrange(2, 21) / 10 for _ in range(m)],
+                 psi=[rng.randrange(1, 16) / 10 for _ in range(m)], rho=[rng.choice([0.3, 0.6]) for _ in bs] + [rng.choice([0.0, 0.5])],
+                 mode="given", root_edge=False, short_rho=False, no_rho=False, r=None if rng.random() < 0.7 else [rng.choice([0.0, 0.5, 1.0])] * m)
+        bitwise_differs = any(T_ - (T_ - h) != h for h in hs)
+        ck.case(("decimal", done), nontrivial=True, bucket=f"decimal-coincidence/den={den}/{'height-spelling-differs' if bitwise_differs else 'both-spellings-agree'}")
+        # the intended coincidences, in exact rationals
+        Fr = lambda x: Fraction(x).limit_denominator(10 * den * den)  # noqa: E731
+        exactN = [sum(1 for h in c["tips"] if Fr(T_) - Fr(h) == Fr(t_)) for t_ in c["times"][1:]]
+        rp = {"case": slim(c), "denominator": den, "intended_N": exactN, "tips_on_rho_events": hs}
+        kind, val = impl_value(c)
+        if kind != "ok":
+            fail(f"bdsk:coincidence-decimal:{kind}", f"log_prob {kind}: {val} [origin {T_}, rho events at origin - {hs}]", rp)
+            continue
+        td = torch_discrete(c, effective_times(c))
+        if td["N"] != exactN:
+            ck.mismatch("N_i by the comparison the code uses (times == origin - tips) differs from the intended coincidences in rationals",
+                        {"case": slim(c), "torch": td["N"], "exact": exactN})
+        ref = None
+        if drv:
+            mv = model_value(drv, c, effective_times(c))
+            if mv is not None:
+                if mv["N"] != exactN:
+                    ck.mismatch("Lean model: N_i differs from the intended coincidences in rationals", {"case": slim(c), "model": mv["N"], "exact": exactN})
+                ref = mv["value"]
+                if not close(val, ref):
+                    fail("bdsk:coincidence-decimal:model", f"origin {T_}, tips at heights {hs} sampled at rho events (rho = {c['rho'][:-1]}) whose times were passed as "
+                         f"origin - height = {bs}: log_prob = {val!r}, the Lean model on the intended coincidence gives {ref!r} "
+                         f"(origin - (origin - h) == h bitwise: {not bitwise_differs})", dict(rp, impl=val, model=ref))
+        try:
+            rk = O.master_equations({k: c[k] for k in ("lam", "mu", "psi", "rho", "times", "r")}, c["tree"], c["survival"], 1200)
+        except (ValueError, ZeroDivisionError):
+            rk = None
+        if rk is not None:
+            off = math.log(2.0) * (len(c["tips"]) - 1) if c["r"] is not None else 0.0
+            if not close(val - off, rk, 1e-6):
+                fail("bdsk:coincidence-decimal:master-equations", f"origin {T_}, tips at heights {hs} on rho events passed as origin - height: log_prob = {val - off!r}, "
+                     f"RK4 integration of the master equations with those tips rho-sampled gives {rk!r}", dict(rp, impl=val - off, rk4=rk))
+            if ref is not None and not close(ref - off, rk, 1e-6):
+                ck.mismatch("Lean model and RK4 oracle disagree on a decimal coincidence", {"case": slim(c), "model": ref - off, "rk4": rk})
+
+
 # ============================================================================ tensor constructors without a dtype
 CTORS = ("ones", "zeros", "tensor", "arange", "full", "eye", "empty", "linspace", "as_tensor", "ones_like", "zeros_like", "full_like")
 REACHABLE = ("_call", "__init__", "from_json", "log_p", "log_q", "log_prob", "epidemiology_to_birth_death", "_sample_shape")
@@ -986,6 +1076,7 @@ def run(ck: Check):
                 if rep.split() != [f2h(float(v)) for v in got]:
                     ck.mismatch("epidemiology_to_birth_death differs from the model", {"in": [R, d, s, r], "impl": [float(v) for v in got], "model": rep})
         # ---------------------------------------------------------------- corpus then generated cases
+        decimal_coincidence_pass(ck, drv, fail, 60 if th else 15)
         ordering_pass(ck, drv, fail, 12 if th else 4)
         products_pass(ck, drv, fail, 8 if th else 2)
         routes_pass(ck, fail, 12 if th else 5)
@@ -999,9 +1090,10 @@ def run(ck: Check):
                 cases.append(_fix_tree(obj["case"]))
         n_small, n_big = (120, 260) if not ck.thorough() else (400, 1500)
         for i in range(n_small):  # small first: failing inputs found here are already minimal
-            cases.append(gen_case(ck.rng, max_m=2, n_max=3))
+            cases.append(gen_case(ck.rng, max_m=2, n_max=3, den=ck.rng.choice([10, 3, 7]) if i % 3 == 0 else None))
         for i in range(n_big):
-            cases.append(gen_case(ck.rng))
+            # every third case on a non-dyadic grid (tenths, thirds, sevenths): coincidences supplied as origin - height in floats
+            cases.append(gen_case(ck.rng, den=ck.rng.choice([10, 3, 7]) if i % 3 == 0 else None))
         for idx, c in enumerate(cases):
             feats = features(c)
             m = len(c["lam"])
@@ -1069,18 +1161,23 @@ def run(ck: Check):
                              dict(replay, impl=val, oracle=want))
             # ---- oracle 2: refinement
             i = ck.rng.randrange(m)
-            ev = sorted({c["times"][-1] - h for h in c["tips"] + c["ints"]})
-            inside = [e for e in ev if c["times"][i] < e < c["times"][i + 1]]
+            # the coarse grid is the one the implementation itself builds (equidistant / relative / root-edge modes compute their
+            # times in floats: the harness's own k*T/m can differ from it by an ulp, and with it a coincidence)
+            ct = effective_times(c)
+            ev = sorted({ct[-1] - h for h in c["tips"] + c["ints"]})
+            inside = [e for e in ev if ct[i] < e < ct[i + 1]]
             if inside and ck.rng.random() < 0.5:
-                frac = (ck.rng.choice(inside) - c["times"][i]) / (c["times"][i + 1] - c["times"][i])
+                frac = (ck.rng.choice(inside) - ct[i]) / (ct[i + 1] - ct[i])
             else:
                 frac = ck.rng.choice([0.25, 0.5, 0.75])
-            c2 = refine_case(dict(c, mode="given", root_edge=False), i, frac)
+            c2 = refine_case(dict(c, times=ct, mode="given", root_edge=False), i, frac)
+            if not (ct[i] < c2["times"][i + 1] < ct[i + 1]):
+                continue
             if drv and idx % 4 == 0:
                 ws = [str(m), str(i), f2h(c2["times"][i + 1])]
                 for kk in ("lam", "mu", "psi", "rho"):
                     ws += [f2h(x) for x in c[kk]]
-                ws += [f2h(x) for x in c["times"]]
+                ws += [f2h(x) for x in ct]
                 rep = drv.ask("refine " + " ".join(ws)).split(" ")
                 if rep[0] != "bad-op":
                     got = {rep[j]: [h2f(x) for x in rep[j + 1].split(",")] for j in range(0, len(rep), 2)}
@@ -1109,7 +1206,7 @@ def run(ck: Check):
                          f"from {val!r} to {v2!r} [{', '.join(f2)}]", {"case": slim(c2), "coarse": slim(c), "impl": v2, "coarse_value": val})
             # ---- oracle 3 (exploration): master equations
             if idx % (3 if ck.thorough() else 9) == 0 and len(c["tips"]) <= 5:
-                par = {k: c[k] for k in ("lam", "mu", "psi", "rho", "times", "r")}
+                par = dict({k: c[k] for k in ("lam", "mu", "psi", "rho", "r")}, times=effective_times(c))
                 try:
                     rk = O.master_equations(par, c["tree"], c["survival"], 1200)
                 except (ValueError, ZeroDivisionError):
